@@ -1126,8 +1126,9 @@ def make_userfile(shape):
                 clauses.append(("file_newer_than_the_last_successful_load_is_read", z3.Not(z3.UGT(m2[0], last_ok))))
             clauses.append(("cover:update2", True))
         if ev == "commit":
-            # a failed save loses at most that one learned choice
-            after = [(k, tuple(v.elems)) for k, v in c["sel_map"].entries]
+            # a failed save loses at most that one learned choice (the map the method holds NOW - it may be another object than before)
+            cur = pm_field(prog, pm, "selections")
+            after = [(k, tuple(v.elems)) for k, v in (cur.entries if isinstance(cur, SMap) else [])]
             extra = [e for e in after if e not in c["before"]]
             kept = all(e in after or any(e[0] == a[0] for a in after) for e in c["before"])
             clauses.append(("failed_save_loses_at_most_that_choice", len(extra) <= 1 and kept))
